@@ -941,7 +941,33 @@ def s_transformer(draw):
     x0, y0, x1, y1 = _isect(CRS_POOL[src["label"]][1], CRS_POOL[dst["label"]][1])
     n = draw(_I(1, 6))
     pts = [[x0 + (x1 - x0) * draw(_f(0.0, 1.0)), y0 + (y1 - y0) * draw(_f(0.0, 1.0))] for _ in range(n)]
-    return {"src": src, "dst": dst, "lonlat": pts}
+    return {"src": src, "dst": dst, "lonlat": pts, "authority_order": draw(_S("no", "no", "before", "after"))}
+
+
+_TR_AUTH: dict = {}
+
+
+def _authority_order(case, P, T):
+    """The same pair requested in authority axis order (always_xy=False) is a different transformer: it must agree
+    with pyproj's, and asking for it must not change what the traditional-order transformer / to_crs return."""
+    from pyproj import Transformer
+
+    a, b = case["src"]["label"], case["dst"]["label"]
+    if (a, b) not in _TR_AUTH:
+        _TR_AUTH[(a, b)] = Transformer.from_crs(_pp(a), _pp(b), always_xy=False)
+    ref = _TR_AUTH[(a, b)]
+    swap_in = _pp(a).axis_info[0].direction in ("north", "south")
+    f = mk_crs(case["src"]).transformer_to_crs(mk_crs(case["dst"]), always_xy=False)
+    for p in P:
+        q = (p[1], p[0]) if swap_in else (p[0], p[1])
+        w = ref.transform(q[0], q[1])
+        r = f(q[0], q[1])
+        tol = 1e-12 * max(abs(w[0]), abs(w[1]), 1.0)
+        require(len(r) == 2 and abs(float(r[0]) - w[0]) <= tol and abs(float(r[1]) - w[1]) <= tol,
+                "transformer(%s->%s, always_xy=False)(%r, %r) = %r, pyproj (authority axis order) gives %r", a, b, q[0], q[1], r, w)
+    T.cls("authority_order_" + case["authority_order"])
+    if swap_in or _pp(b).axis_info[0].direction in ("north", "south"):
+        T.cls("authority_order_differs_from_xy")
 
 
 def o_transformer(case, T):
@@ -951,7 +977,19 @@ def o_transformer(case, T):
     a, b = case["src"]["label"], case["dst"]["label"]
     P = _chain_tr("4326", a)(case["lonlat"])
     want = _chain_tr(a, b)(P)
+    ao = case.get("authority_order", "no")
+    if ao != "no":
+        # start the pair's history from an empty transformer cache so that the case replays on its own
+        from odc.geo import crs as _crs_mod
+
+        cache = getattr(getattr(_crs_mod, "_make_crs_transform", None), "cache", None)
+        if hasattr(cache, "clear"):
+            cache.clear()
+    if ao == "before" and a != b:
+        _authority_order(case, P, T)
     f = mk_crs(case["src"]).transformer_to_crs(mk_crs(case["dst"]))
+    if ao == "after" and a != b:
+        _authority_order(case, P, T)
 
     def close(g, w):
         tol = 1e-12 * max(abs(w[0]), abs(w[1]), 1.0)
@@ -967,6 +1005,13 @@ def o_transformer(case, T):
     for i, w in enumerate(want):
         require(close((float(rx[i]), float(ry[i])), w), "transformer(%s->%s) array element %d = %r, pyproj gives %r", a, b, i, (float(rx[i]), float(ry[i])), w)
     require((xs == xs0).all() and (ys == ys0).all(), "transformer modified its input arrays")
+    if a != b:
+        from odc.geo import geom as G
+
+        out = G.point(P[0][0], P[0][1], mk_crs(case["src"])).to_crs(mk_crs(case["dst"]))
+        gx, gy = out.coords[0]
+        require(close((float(gx), float(gy)), want[0]), "point(%r, %r, %s).to_crs(%s) = %r, pyproj gives %r (authority-order transformer requested: %s)",
+                P[0][0], P[0][1], a, b, (gx, gy), want[0], ao)
     T.cls("pair:%s->%s" % (CRS_POOL[a][0][:4], CRS_POOL[b][0][:4]))
     T.cls("npts:%d" % min(len(P), 3))
     T.nontrivial(("transformer", a, b, case["src"]["spell"], case["dst"]["spell"]))
